@@ -208,6 +208,7 @@ type observation struct {
 	Problems    []string
 	BufProblems []string
 	ActionKey   string
+	Flushes     []error // what the flush callback returned, per call
 }
 
 var browserURL = &url.URL{Scheme: "http", Host: "browser.example"}
@@ -232,7 +233,14 @@ func runPipeline(sc *scenario, plan map[string]string) *observation {
 
 	writer, flusher := re_blobstore.NewBatchedStoreBlobAccess(globalCAS, digest.KeyWithoutInstance, sc.BatchSize, semaphore.NewWeighted(sc.Concurrency))
 	base := &scriptedExecutor{sc: sc, w: w, writer: writer}
-	var executor builder.BuildExecutor = builder.NewStorageFlushingBuildExecutor(base, flusher)
+	// The flusher is wrapped only to observe what it reports.
+	var flushResults []error
+	observedFlusher := func(ctx context.Context) error {
+		err := flusher(ctx)
+		flushResults = append(flushResults, err)
+		return err
+	}
+	var executor builder.BuildExecutor = builder.NewStorageFlushingBuildExecutor(base, observedFlusher)
 	executor = builder.NewCachingBuildExecutor(executor, globalCAS, actionCache, browserURL)
 
 	action := &remoteexecution.Action{DoNotCache: sc.DoNotCache, CommandDigest: digestOf([]byte("command")).GetProto(), InputRootDigest: digestOf(nil).GetProto()}
@@ -267,6 +275,7 @@ func runPipeline(sc *scenario, plan map[string]string) *observation {
 		Problems:    w.problems,
 		BufProblems: w.bufferProblems(true),
 		ActionKey:   keyOf(actionDigest),
+		Flushes:     flushResults,
 	}
 	scenarioKeys := poolKeys
 	for _, k := range globalCAS.keys() {
@@ -397,6 +406,30 @@ func checkRun(sc *scenario, obs *observation, fault *fallible, kind string) erro
 			}
 		}
 	}
+	// The flush runs exactly once per action. If it reports success, every
+	// write the batching layer acknowledged is stored; if it reports an
+	// error, the response carries an error, is not cached and advertises
+	// no digests.
+	if len(obs.Flushes) != 1 {
+		return fmt.Errorf("flush callback invoked %d times", len(obs.Flushes))
+	}
+	if flushErr := obs.Flushes[0]; flushErr == nil {
+		for _, c := range obs.Acked {
+			if k := keyOf(digestOf([]byte(c))); !obs.CASKeys[k] {
+				return fmt.Errorf("flush reported success but acknowledged blob %q (%s) is not in the CAS", c, k)
+			}
+		}
+	} else {
+		if finalOK {
+			return fmt.Errorf("flush failed (%v) but the response has OK status", flushErr)
+		}
+		if len(obs.ACEntries) != 0 {
+			return fmt.Errorf("flush failed (%v) but the result was cached", flushErr)
+		}
+		if len(advertised) != 0 {
+			return fmt.Errorf("flush failed (%v) but the response still advertises %d digests", flushErr, len(advertised))
+		}
+	}
 	// First error wins: an error reported by the base executor is never replaced.
 	if !statusOK(obs.BaseStatus) && !proto.Equal(obs.BaseStatus, r.Status) {
 		return fmt.Errorf("base executor reported %v but the pipeline returned status %v", obs.BaseStatus, r.Status)
@@ -448,6 +481,14 @@ func checkRun(sc *scenario, obs *observation, fault *fallible, kind string) erro
 		// The run is identical to the fault-free one up to the fault.
 		return fmt.Errorf("harness: planned fault %s was not reached; calls=%+v", fault.Key, obs.Calls)
 	}
+	if kind == faultCancelIgnored {
+		// Nothing failed at the back end: whether the operation fails is
+		// up to the code, and the oracles above (flush success => all
+		// acknowledged blobs stored, OK response / AC entry => all
+		// referenced blobs stored) decide. If nothing was left unwritten
+		// the result may legitimately be cached.
+		return nil
+	}
 	if finalOK {
 		return fmt.Errorf("%s fault (%s) at %s was reached but the response has OK status", fault.Class, kind, fault.Key)
 	}
@@ -489,7 +530,7 @@ func referencedDigestsOfScenario(sc *scenario) []string {
 
 func TestC09PipelineFaults(t *testing.T) {
 	rec := simkit.NewRecorder(t, "C09", "pipeline_faults",
-		"scenario = generated action (do_not_cache, request well-formed or not), scripted outcome (status code, exit code), 0-9 output blobs (files, trees, root dirs, stdout, stderr, server logs) drawn from 8 contents so duplicates and the empty blob are common, some already in the CAS, batch size 1-5, upload concurrency 1-3 with generated transfer order; real BatchedStoreBlobAccess -> StorageFlushingBuildExecutor -> CachingBuildExecutor over fake CAS/AC. One fault-free run enumerates the fallible calls (FindMissing, CAS Put, AC Put, historical-response Put), then one run per (call x {error, ctx cancelled}). Oracle: AC entry => !do_not_cache & status OK & exit 0 & every referenced digest in the CAS at the moment of the AC Put; reached fault => status non-OK & not cached & (output write/flush fault) no digests advertised; OK response advertises only stored blobs; first error wins; fault-free => cached iff allowed; every buffer released exactly once. NON-TRIVIAL = fault reached and scenario has >=2 distinct blobs; distinct by (scenario, fault index, kind); evaluations = (scenario, fault) runs")
+		"scenario = generated action (do_not_cache, request well-formed or not), scripted outcome (status code, exit code), 0-9 output blobs (files, trees, root dirs, stdout, stderr, server logs) drawn from 8 contents so duplicates and the empty blob are common, some already in the CAS, batch size 1-5, upload concurrency 1-3 with generated transfer order; real BatchedStoreBlobAccess -> StorageFlushingBuildExecutor -> CachingBuildExecutor over fake CAS/AC. One fault-free run enumerates the fallible calls (FindMissing, CAS Put, AC Put, historical-response Put), then one run per (call x {error, ctx cancelled, ctx cancelled but ignored by the back ends (FindMissing/output Put only)}). Oracle: AC entry => !do_not_cache & status OK & exit 0 & every referenced digest in the CAS at the moment of the AC Put; reached error/cancel fault => status non-OK & not cached & (output write/flush fault) no digests advertised; flush()==nil => every acknowledged blob stored, flush()!=nil => status non-OK & not cached & nothing advertised; OK response advertises only stored blobs; first error wins; fault-free => cached iff allowed; every buffer released exactly once. NON-TRIVIAL = fault reached and scenario has >=2 distinct blobs; distinct by (scenario, fault index, kind); evaluations = (scenario, fault) runs")
 	rapid.Check(t, func(rt *rapid.T) {
 		sc := genScenario(rt)
 		type run struct {
@@ -503,8 +544,12 @@ func TestC09PipelineFaults(t *testing.T) {
 			runs = append(runs, run{script: runScript{Scenario: sc, Fault: -1}, obs: free})
 			calls := canonicalCalls(free.Calls)
 			for i := range calls {
-				for _, kind := range []string{faultError, faultCancel} {
+				for _, kind := range []string{faultError, faultCancel, faultCancelIgnored} {
 					f := calls[i]
+					if kind == faultCancelIgnored && f.Class != "fm" && f.Class != "put" {
+						// After the flush a cancellation nobody notices changes nothing.
+						continue
+					}
 					obs := runPipeline(&sc, map[string]string{f.Key: kind})
 					runs = append(runs, run{script: runScript{Scenario: sc, Fault: i, Call: f.Class, Kind: kind}, fault: &f, obs: obs})
 				}
@@ -568,8 +613,19 @@ func TestC09PipelineFaults(t *testing.T) {
 					} else {
 						labels = append(labels, "fault_in_final_flush")
 					}
-					if sc.cacheAllowed() {
+					if sc.cacheAllowed() && len(r.obs.ACEntries) == 0 {
 						labels = append(labels, "fault_blocks_caching")
+					}
+					if r.script.Kind == faultCancelIgnored {
+						// Did the cancellation leave blobs unwritten (flush must fail) or not?
+						if r.obs.Flushes[0] != nil {
+							labels = append(labels, "cancel_ignored:flush_failed")
+						} else {
+							labels = append(labels, "cancel_ignored:flush_ok")
+						}
+						if len(r.obs.ACEntries) == 1 {
+							labels = append(labels, "cancel_ignored:cached")
+						}
 					}
 				} else if len(referencedDigests(r.obs.Response.Result, r.obs.Response.ServerLogs)) > 0 {
 					// Visible on purpose: after a failed AC / historical-response
